@@ -48,6 +48,51 @@ theorem initClientOption_pd_eq (p : Nego.PD) (level poolSize : Int) :
     simp only [↓reduceIte, Nego.defaultThreshold, Facts.defaultCompressThreshold]
     congr 2 <;> simp [Bool.or_eq_true, decide_eq_true_eq]
 
+/-- `Upgrader.getPermessageDeflate` = `Nego.serverGetPD`: the server keeps its own window bits and threshold, a direction keeps
+its context iff the client's offer does not decline it AND the server's setting allows it, compression is on iff the server
+enables it and the offer names the extension, and `setThreshold(true)` is applied last.  What `permessageNegotiation` makes
+of the offer (`clientPD`) and whether the offer names the extension are inputs of the translated function. -/
+theorem server_getPD_eq (opt : Nego.PD) (extensions : Nego.Str) (level poolSize : Int) (ext : Hs.Str) :
+    Trans.Upgrader_getPermessageDeflate ext
+        (c_option_PermessageDeflate_ClientContextTakeover := opt.clientTakeover)
+        (c_option_PermessageDeflate_ClientMaxWindowBits := opt.clientBits)
+        (c_option_PermessageDeflate_Enabled := opt.enabled)
+        (c_option_PermessageDeflate_Level := level) (c_option_PermessageDeflate_PoolSize := poolSize)
+        (c_option_PermessageDeflate_ServerContextTakeover := opt.serverTakeover)
+        (c_option_PermessageDeflate_ServerMaxWindowBits := opt.serverBits)
+        (c_option_PermessageDeflate_Threshold := opt.threshold)
+        (clientPD_ClientContextTakeover := (Nego.permessageNegotiation extensions).clientTakeover)
+        (clientPD_ServerContextTakeover := (Nego.permessageNegotiation extensions).serverTakeover)
+        (offered := Nego.contains extensions Nego.pmd)
+      = ((Nego.serverGetPD opt extensions).enabled, level, (Nego.serverGetPD opt extensions).threshold, poolSize,
+         (Nego.serverGetPD opt extensions).serverTakeover, (Nego.serverGetPD opt extensions).clientTakeover,
+         (Nego.serverGetPD opt extensions).serverBits, (Nego.serverGetPD opt extensions).clientBits) := by
+  unfold Trans.Upgrader_getPermessageDeflate Trans.PermessageDeflate_setThreshold Nego.serverGetPD Nego.setThreshold
+  generalize Nego.permessageNegotiation extensions = cpd
+  obtain ⟨_, cst, cct, _, _, _⟩ := cpd
+  obtain ⟨_, ost, oct, _, _, _⟩ := opt
+  cases cst <;> cases cct <;> cases ost <;> cases oct <;> simp
+
+/-- `connector.getPermessageDeflate` = `Nego.clientGetPD`: the client takes takeover flags and window bits from the server's
+response, keeps its own threshold, and `setThreshold(false)` is applied last -/
+theorem client_getPD_eq (opt : Nego.PD) (extensions : Nego.Str) (level poolSize : Int) (ext : Hs.Str) :
+    Trans.connector_getPermessageDeflate ext
+        (c_option_PermessageDeflate_Enabled := opt.enabled)
+        (c_option_PermessageDeflate_Level := level) (c_option_PermessageDeflate_PoolSize := poolSize)
+        (c_option_PermessageDeflate_Threshold := opt.threshold)
+        (serverPD_ClientContextTakeover := (Nego.permessageNegotiation extensions).clientTakeover)
+        (serverPD_ClientMaxWindowBits := (Nego.permessageNegotiation extensions).clientBits)
+        (serverPD_ServerContextTakeover := (Nego.permessageNegotiation extensions).serverTakeover)
+        (serverPD_ServerMaxWindowBits := (Nego.permessageNegotiation extensions).serverBits)
+        (offered := Nego.contains extensions Nego.pmd)
+      = ((Nego.clientGetPD opt extensions).enabled, level, (Nego.clientGetPD opt extensions).threshold, poolSize,
+         (Nego.clientGetPD opt extensions).serverTakeover, (Nego.clientGetPD opt extensions).clientTakeover,
+         (Nego.clientGetPD opt extensions).serverBits, (Nego.clientGetPD opt extensions).clientBits) := by
+  unfold Trans.connector_getPermessageDeflate Trans.PermessageDeflate_setThreshold Nego.clientGetPD Nego.setThreshold
+  generalize Nego.permessageNegotiation extensions = spd
+  obtain ⟨_, sst, sct, _, _, _⟩ := spd
+  cases sst <;> cases sct <;> simp
+
 /-- after `initServerOption` the limits are positive, whatever the application configured -/
 theorem initServerOption_limits_pos (r g rb w wb : Int) :
     ∃ g' rb' r' wb' w', Trans.initServerOption_limits (c_ReadMaxPayloadSize := r) (c_ParallelGolimit := g) (c_ReadBufferSize := rb)
